@@ -924,7 +924,14 @@ def is_flag_store(W, s):
     if adt is None:
         return False
     ftypes = {f["name"]: f["ty"] for f in adt["variants"][0]["fields"]}
-    return ftypes.get(t[2]) == "bool"
+    fty = ftypes.get(t[2])
+    if fty == "bool":
+        return True
+    # the same bookkeeping kept in a private field-less enum (Clean / Written / Committed) instead of two bools
+    for (u, d), a in W.prog.adts.items():
+        if d == fty and u.startswith(WD.CORE) and a["kind"] == "Enum" and all(not v["fields"] for v in a["variants"]):
+            return True
+    return False
 
 
 def s_class(rep, W, rule="S-CLASS"):
@@ -1584,43 +1591,49 @@ def c10(rep, W, rule="C10"):
     SNAP = snap_terms[0]
     # loop variables
     vids = [l for l in pv.phi_locals if body.locals[l]["ty"] == "uuid::Uuid" and body.locals[l]["user"]]
-    cnts = [l for l in pv.phi_locals if body.locals[l]["ty"] in ("i32", "i64", "u32", "usize", "isize", "u64", "i16", "u16", "u8", "i8") and body.locals[l]["user"]]
-    if len(vids) != 1 or len(cnts) != 1:
-        rep.fail(rule, (fn, "loop-variables"), "expected one walking id variable and one counter (found %d, %d)" % (len(vids), len(cnts)), where(body))
+    if len(vids) != 1:
+        rep.fail(rule, (fn, "loop-variables"), "expected one walking id variable (found %d)" % len(vids), where(body))
         return
-    vid_l, cnt_l = vids[0], cnts[0]
+    vid_l = vids[0]
     VID = ("phi", vid_l, ANY)
-    CNT = ("phi", cnt_l, ANY)
     some = lambda p_: pat.adt("Option", "Some", ("0", p_))  # noqa: E731
     e = find_eq_atom(g, some(v), SNAP)
     mt = find_eq_atom(g, v, VID)
     z = find_eq_atom(g, v, nil_const_pat())
     s = find_eq_atom(g, some(VID), SNAP)
     n = find_eq_atom(g, VID, nil_const_pat())
-    ks = [a for a in g.atoms if a[0] == "CMP" and (m(CNT, a[2]) is not None or m(CNT, a[3]) is not None)]
     gvs = sites_of(body, WD.tm("get_version"))
     names = {"G0 Some(v)==snapshot": e, "G1 vid==v": mt, "G1 v!=NIL": z, "G2 Some(vid)==snapshot": s, "G3 vid==NIL": n}
     for nm, a in names.items():
         rep.ob(rule, (fn, "atom", nm), a is not None, "test %s %s" % (nm, "present" if a else "NOT FOUND"), where(body))
-    rep.ob(rule, (fn, "atom", "G3 counter test"), len(ks) == 1, "%d comparison(s) on the counter" % len(ks), where(body))
     rep.ob(rule, (fn, "atom", "G4 parent lookup"), len(gvs) == 1, "%d get_version call(s)" % len(gvs), where(body))
-    if None in names.values() or len(ks) != 1 or len(gvs) != 1:
+    if None in names.values() or len(gvs) != 1:
         return
-    k = ks[0]
     gv_bb = gvs[0][0]
     gva = pv.arg_terms(gv_bb)
     rep.ob(rule, (fn, "G4", "lookup-args"), gva[0] == txn and m(VID, gva[1]) is not None, "parent link read via get_version(%s) on %s" % (P.show(gva[1]), P.show(gva[0])), where(body, gv_bb))
     gatom = ("VARIANT", ("ok", pv.def_term((gv_bb, "T"))))
-    # counter: k_true = "counter exhausted"
-    if m(CNT, k[2]) is not None and k[3][0] == "const":
-        form, bound = k[1], k[3][2]          # cnt < c  /  cnt <= c
-        k_exhausted = True
-    elif m(CNT, k[3]) is not None and k[2][0] == "const":
-        form, bound = ("Gt" if k[1] == "Lt" else "Ge"), k[2][2]   # c < cnt == cnt > c
-        k_exhausted = False
-    else:
-        rep.fail(rule, (fn, "N", "counter-test-form"), "counter is not compared with a constant: %s" % G.show_atom(k), where(body))
-        return
+    # C10.N (bounded window): the product analysis propagates constants, so a walk governed by a counter with a constant start
+    # and constant steps (a `search_len -= 1` counter, a `for _ in (0..N).rev()` range, ...) is unrolled whatever its spelling.
+    # Count, over all product paths, how often the accept test `vid == v` is evaluated.
+    accept_bbs = set(g.atoms.get(mt, []))
+    CAP = 12
+    start = (0, frozenset())
+    best = {}                 # product state -> set of visit counts with which it is reached
+    work = [(start, 1 if start[0] in accept_bbs else 0)]
+    while work:
+        st_, c_ = work.pop()
+        if c_ in best.setdefault(st_, set()):
+            continue
+        best[st_].add(c_)
+        for y in g.edges.get(st_, ()):
+            c2 = min(CAP, c_ + (1 if y[0] in accept_bbs else 0))
+            work.append((y, c2))
+    max_tests = max((max(cs) for st_, cs in best.items() if st_[0] in accept_bbs), default=0)
+    rep.ob(rule, (fn, "N", "window-size"), max_tests == 5,
+           "on any path the accept test `walked id == requested id` is evaluated at most %s times%s; the protocol says the latest version and four ancestors (five)"
+           % (max_tests if max_tests < CAP else "%d+" % CAP, " (no constant bound found: the walk is not bounded by a constant counter)" if max_tests >= CAP else ""),
+           where(body), sample={"accept_tests": max_tests})
     # C10.W
     ss_ = sites_of(body, WD.tm("set_snapshot"))
     if len(ss_) != 1:
@@ -1637,7 +1650,6 @@ def c10(rep, W, rule="C10"):
     rep.ob(rule, (fn, "W", "snapshot-bytes"), m(("param", 4, ANY), wa[2]) is not None, "stored bytes are %s; must be the submitted data" % P.show(wa[2]), where(body, wbb))
     # C10.ITER: the single in-loop assignment of vid
     vdefs = pv.phi_alternatives(vid_l)
-    cdefs = pv.phi_alternatives(cnt_l)
     rec = ("ok", ("ok", pv.def_term((gv_bb, "T"))))
     init_v = [t for sdef, t in vdefs if t == ("field", client, "latest_version_id")]
 
@@ -1658,61 +1670,24 @@ def c10(rep, W, rule="C10"):
     step_v = [(sdef, t) for sdef, t in vdefs if _is_step(sdef, t)]
     rep.ob(rule, (fn, "ITER", "vid-defs"), len(vdefs) == 2 and len(init_v) == 1 and len(step_v) == 1,
            "walk variable definitions: %s; must be {client.latest_version_id, parent link of the version just read}" % [P.show(t) for _, t in vdefs], where(body))
-    init_c = [t for sdef, t in cdefs if t[0] == "const" and isinstance(t[2], int)]
-    step_c = []
-    for sdef, t in cdefs:
-        t2 = t[1] if (t[0] == "field" and t[2] == "0") else t
-        if t2[0] == "binop" and t2[1] in ("Sub", "SubWithOverflow", "SubUnchecked") and m(CNT, t2[2]) is not None and m(pat.const(val=1), t2[3]) is not None:
-            step_c.append((sdef, t))
-    rep.ob(rule, (fn, "ITER", "counter-defs"), len(cdefs) == 2 and len(init_c) == 1 and len(step_c) == 1,
-           "counter definitions: %s; must be {constant, counter - 1}" % [P.show(t) for _, t in cdefs], where(body))
-    if len(step_v) != 1 or len(step_c) != 1 or len(init_c) != 1:
+    if len(step_v) != 1:
         return
-    vsite, csite = step_v[0][0], step_c[0][0]
-    cont = ("and", ("or", ("is", mt, False), ("is", z, True)), ("is", s, False), ("is", k, not k_exhausted), ("is", n, False), ("is", gatom, "ok"))
+    vsite = step_v[0][0]
+    cont = ("and", ("or", ("is", mt, False), ("is", z, True)), ("is", s, False), ("is", n, False), ("is", gatom, "ok"))
     rep.ob(rule, (fn, "ITER", "continue-conditions"), all_vals(g, vsite, cont),
-           "the walk advances only when: not accepted, vid is not the snapshot version, counter not exhausted, vid != NIL, version found; offending: %s"
+           "the walk advances only when: not accepted, vid is not the snapshot version, vid != NIL, version found; offending: %s"
            % failing_vals(g, vsite, cont)[:1], where(body, vsite[0]))
-    pre_dec = ("and", ("or", ("is", mt, False), ("is", z, True)), ("is", s, False))
-    rep.ob(rule, (fn, "ITER", "accept-and-G2-before-decrement"), all_vals(g, csite, pre_dec),
-           "the accept test and the newer-snapshot test are evaluated on the current id before the counter is decremented; offending: %s" % failing_vals(g, csite, pre_dec)[:1],
-           where(body, csite[0]))
-    # one decrement per iteration: no cycle through the vid step that avoids the decrement
-    starts = set()
+    # the newer-snapshot test is evaluated on every id the accept test is evaluated on, before the walk advances
+    s_bbs = set(g.atoms.get(s, []))
+    okorder = True
     for st_ in g.states_at_block(vsite[0]):
-        starts |= g.edges.get(st_, set())
-    seen = set()
-    stk = list(starts)
-    skip = False
-    while stk:
-        x = stk.pop()
-        if x in seen or x[0] == csite[0]:
-            continue
-        seen.add(x)
-        if x[0] == vsite[0]:
-            skip = True
-            break
-        for y in g.edges.get(x, ()):
-            stk.append(y)
-    rep.ob(rule, (fn, "ITER", "one-decrement-per-step"), not skip, "every iteration of the walk passes the counter decrement", where(body, csite[0]))
-    # C10.N trip count of the accept test
-    N0 = init_c[0][2]
-    tests = None
-    if form == "Le" and bound == 0:
-        tests = N0
-    elif form == "Lt" and bound == 0:
-        tests = N0 + 1
-    elif form == "Le":
-        tests = N0 - bound
-    elif form == "Lt":
-        tests = N0 - bound + 1
-    rep.ob(rule, (fn, "N", "window-size"), tests == 5,
-           "counter starts at %s, decremented once per step, walk stops when counter %s %s after the decrement: the accept test runs on at most %s versions; the protocol says five"
-           % (N0, "<=" if form == "Le" else form, bound, tests), where(body),
-           sample={"init": N0, "exit_test": "%s %s" % (form, bound), "accept_tests": tests})
+        okorder = okorder and dict(st_[1]).get(s) is not None
+    rep.ob(rule, (fn, "ITER", "accept-and-G2-before-step"), okorder and bool(s_bbs),
+           "the accept test and the newer-snapshot test are evaluated on the current id before the walk moves to its parent", where(body, vsite[0]))
     # C10.D: every non-error exit is Ok(()); decline exits are exactly under a decline condition
     okunit = pat.adt("Result", "Ok", ("0", ("agg", "tuple", ())))
-    decl = ("or", ("is", e, True), ("is", s, True), ("is", k, k_exhausted), ("is", n, True), ("is", gatom, "err"))
+    decl = ("or", ("is", e, True), ("is", s, True), ("is", n, True), ("is", gatom, "err"))
+    exit_blocks = {}
     nd = 0
     for site, term in exits(W, body):
         if is_error_exit(term):
@@ -1721,9 +1696,21 @@ def c10(rep, W, rule="C10"):
         if site[0] == wbb or g.may_follow(wbb, site[0]):
             continue
         nd += 1
-        rep.ob(rule, (fn, "D", "decline-condition#%d" % nd), all_vals(g, site, decl),
+        # "window exhausted" has no atom of its own (the counter is folded): it is the exit reached with the full number of
+        # accept tests behind it
+        bad_ = []
+        for st_, cs in best.items():
+            if st_[0] != site[0]:
+                continue
+            val_ = dict(st_[1])
+            if G.ev(decl, val_) is True:
+                continue
+            if cs and min(cs) >= 5:
+                continue
+            bad_.append(G.show_val({k_: v_ for k_, v_ in val_.items() if k_ in formula_atoms(decl)}) + " after %s accept test(s)" % sorted(cs))
+        rep.ob(rule, (fn, "D", "decline-condition#%d" % nd), not bad_,
                "a decline exit is taken only under: already the snapshot / newer snapshot in window / window exhausted / chain start reached / version missing; offending: %s"
-               % failing_vals(g, site, decl)[:1], where(body, line=exit_line(body, site)))
+               % bad_[:1], where(body, line=exit_line(body, site)))
     rep.floor(rule, "decline exits", nd, 2, where(body))
 
 
